@@ -1022,6 +1022,12 @@ func genC07(g *Gen, tier string, emit func(op string, args ...string)) {
 	interleavings([][]string{serve(0), down(0, false)}, 0, g, sc)
 	// exhaustive: one Serve, one datagram, one Shutdown
 	interleavings([][]string{serve(0), dgram(0, 0, d0, 2), {"X0", "x0", "W0"}}, 0, g, sc)
+	// datagrams the server refuses (no octets, a runt, garbage, a request signed with another secret) are work it
+	// has accounted for as well: Shutdown returns nil once they are dropped
+	for _, bad := range []string{"-", "01", hx(g.RandBytes(19)), hx(g.RandBytes(40)), hx(accountingRequest(3, []byte("wrong")))} {
+		interleavings([][]string{serve(0), {"D0:0:" + bad, "d0"}, {"X0", "x0", "W0"}}, 40, g, sc)
+		sc([]string{"S0", "s0", "D0:0:" + bad, "d0", "D0:0:" + bad, "d1", "D0:0:" + d0, "d2", "F2:2", "X0", "x0", "e0", "W0"})
+	}
 	// the caller's context may have ended before Shutdown is called with it (then both select arms can be ready)
 	interleavings([][]string{serve(0), {"C0"}, {"X0", "x0", "W0"}}, 0, g, sc)
 	interleavings([][]string{{"S0", "s0"}, dgram(0, 0, d0, 2), {"C0", "X0", "x0", "W0", "e0", "W0"}}, 0, g, sc)
@@ -1040,6 +1046,11 @@ func genC07(g *Gen, tier string, emit func(op string, args ...string)) {
 			lim = 0
 		}
 		interleavings([][]string{shared(0), shared(1), {"f0:" + k}, {"X0", "x0", "e0", "W0"}}, lim, g, sc)
+		// a handler outlives its Serve call (the read failure ends Serve, the listener is gone from the table):
+		// Shutdown must still cancel its context and wait for it
+		sc([]string{"S0", "s0", "D0:0:" + d0, "d0", "f0:" + k, "e0", "X0", "x0", "F0:2", "W0"})
+		sc([]string{"S0", "s0", "D0:0:" + d0, "d0", "f0:" + k, "e0", "X0", "x0", "C0", "W0", "F0:0"})
+		interleavings([][]string{{"S0", "s0"}, dgram(0, 0, d0, 2), {"f0:" + k, "e0"}, {"X0", "x0", "W0"}}, lim/2, g, sc)
 		sc([]string{"S0", "s0", "X0", "x0", "f0:" + k, "W0"})
 		sc([]string{"T0:0", "s0", "T1:0", "s1", "X0", "x0", "f0:" + k, "f0:" + k, "W0"})
 		sc([]string{"T0:0", "s0", "T1:0", "s1", "f0:" + k, "D0:0:" + d0, "d0", "F0:2", "X0", "x0", "e0", "W0"})
